@@ -7,6 +7,9 @@ use vt100_verif_harness::{hex, obs, panic_kind, unhex, Recorder};
 
 struct Ctx {
     parser: Option<vt100::Parser<Recorder>>,
+    // a Parser with the default callbacks (the only instantiation that implements io::Write),
+    // fed the same history; kept only when the recorded parser does not honour resize requests
+    twin: Option<vt100::Parser>,
     snaps: std::collections::HashMap<u32, vt100::Screen>,
     vte: Option<vte::Parser>,
 }
@@ -82,22 +85,45 @@ fn exec(ctx: &mut Ctx, line: &str, out: &mut String) {
         "NEW" => {
             let rec = Recorder { events: vec![], resizing: f[4] == "1" };
             ctx.parser = Some(vt100::Parser::new_with_callbacks(num(f[1]), num(f[2]), num(f[3]), rec));
+            ctx.twin = if f[4] == "1" { None } else { Some(vt100::Parser::new(num(f[1]), num(f[2]), num(f[3]))) };
             ctx.snaps.clear();
         }
         "P" => {
             let b = if f.len() > 1 { unhex(f[1]) } else { vec![] };
             ctx.parser.as_mut().unwrap().process(&b);
+            if let Some(t) = ctx.twin.as_mut() {
+                t.process(&b);
+            }
         }
         "W" => {
             let b = if f.len() > 1 { unhex(f[1]) } else { vec![] };
             let p = ctx.parser.as_mut().unwrap();
-            // io::Write is implemented for Parser<()> only; exercise it on a twin
-            // parser and check it against process() on the recorded one.
+            // io::Write is implemented for Parser<()> only: call it on the twin and compare the
+            // twin's complete state with process() on the recorded parser
             p.process(&b);
-            writeln!(out, "W {}", b.len()).unwrap();
+            let (n, same) = match ctx.twin.as_mut() {
+                Some(t) => {
+                    use std::io::Write as _;
+                    let n = t.write(&b).unwrap();
+                    t.flush().unwrap();
+                    (n, t.screen().verif_dump() == p.screen().verif_dump())
+                }
+                None => (b.len(), true),
+            };
+            writeln!(out, "W {} {}", n, if same { "same" } else { "DIFFERENT-FROM-PROCESS" }).unwrap();
         }
-        "SIZE" => ctx.parser.as_mut().unwrap().screen_mut().set_size(num(f[1]), num(f[2])),
-        "SB" => ctx.parser.as_mut().unwrap().screen_mut().set_scrollback(num(f[1])),
+        "SIZE" => {
+            ctx.parser.as_mut().unwrap().screen_mut().set_size(num(f[1]), num(f[2]));
+            if let Some(t) = ctx.twin.as_mut() {
+                t.screen_mut().set_size(num(f[1]), num(f[2]));
+            }
+        }
+        "SB" => {
+            ctx.parser.as_mut().unwrap().screen_mut().set_scrollback(num(f[1]));
+            if let Some(t) = ctx.twin.as_mut() {
+                t.screen_mut().set_scrollback(num(f[1]));
+            }
+        }
         "SNAP" => {
             let s = ctx.parser.as_ref().unwrap().screen().clone();
             ctx.snaps.insert(num(f[1]), s);
@@ -203,13 +229,13 @@ fn main() {
     std::panic::set_hook(Box::new(|_| {}));
     let stdout = std::io::stdout();
     let mut w = std::io::BufWriter::new(stdout.lock());
-    let mut ctx = Ctx { parser: None, snaps: Default::default(), vte: None };
+    let mut ctx = Ctx { parser: None, twin: None, snaps: Default::default(), vte: None };
     let mut dead = false;
     for line in text.lines() {
         if line.starts_with("CASE") {
             writeln!(w, "{line}").unwrap();
             dead = false;
-            ctx = Ctx { parser: None, snaps: Default::default(), vte: None };
+            ctx = Ctx { parser: None, twin: None, snaps: Default::default(), vte: None };
             continue;
         }
         if dead || line.starts_with('#') {
